@@ -23,7 +23,8 @@ var Profiles = map[string]Profile{
 	"mixed":     {},
 	"view":      {"entity_add": 3, "pose": 3, "comp_add": 3, "comp_upd": 3, "comp_del": 2, "sub": 3, "action": 3, "asset_add": 3, "join": 2, "close": 1.5, "entity_del": 2},
 	"relay":     {"entity_add": 3, "entity_del": 2, "pose": 3, "custom": 4, "action": 2, "asset_add": 2, "join": 2, "close": 1.5},
-	"isolation": {"join": 4, "close": 2, "entity_add": 2, "custom": 2, "pose": 2, "comp_add": 2, "open": 2},
+	"isolation": {"join": 4, "close": 2, "entity_add": 2, "custom": 2, "pose": 2, "comp_add": 2, "open": 2, "dz_quad": 2, "dz_info": 1, "dz_region": 1},
+	"dagaz":     {"dz_quad": 5, "dz_info": 2.5, "dz_region": 2.5, "join": 5, "open": 2, "close": 1.5, "entity_add": 1},
 	"refusal": {"entity_del": 2, "comp_add": 2, "comp_del": 2, "get_name": 2, "get_id": 2, "sub": 2, "unsub": 1.5, "comp_list": 1.5, "type_add": 2,
 		"signed_latency": 2, "pong": 1.5, "receipt": 1.5, "action": 2, "asset_add": 2, "join": 2, "custom": 1.5},
 	"owner":     {"entity_add": 4, "entity_del": 4, "pose": 4, "asset_add": 4, "join": 2, "close": 2},
@@ -38,7 +39,8 @@ var Profiles = map[string]Profile{
 }
 
 var kinds = []string{"open", "close", "join", "entity_add", "entity_del", "pose", "custom", "type_add", "get_name", "get_id",
-	"comp_add", "comp_del", "comp_upd", "comp_list", "sub", "unsub", "pong", "signed_latency", "receipt", "action", "asset_add", "ping"}
+	"comp_add", "comp_del", "comp_upd", "comp_list", "sub", "unsub", "pong", "signed_latency", "receipt", "action", "asset_add", "ping",
+	"dz_quad", "dz_info", "dz_region"} // dagaz kinds have no base weight: only profiles that name them issue them
 
 var baseWeight = map[string]float64{"open": 0.8, "close": 0.5, "join": 1.5, "entity_add": 2, "entity_del": 1, "pose": 1.5, "custom": 1,
 	"type_add": 1, "get_name": 0.5, "get_id": 0.5, "comp_add": 1.5, "comp_del": 1, "comp_upd": 1.5, "comp_list": 0.7, "sub": 1, "unsub": 0.6,
@@ -146,7 +148,11 @@ func (g *Gen) Next() Action {
 	for _, k := range kinds {
 		w := baseWeight[k]
 		if p, ok := g.Prof[k]; ok {
-			w *= p
+			if w == 0 {
+				w = p
+			} else {
+				w *= p
+			}
 		}
 		// quota pressure: kinds issued less often get more weight
 		w /= 1 + 0.15*float64(g.Counts[k])
@@ -297,6 +303,21 @@ func (g *Gen) Next() Action {
 		if g.R.Intn(15) == 0 {
 			r.ActNil = true
 		}
+	case "dz_quad":
+		// 1-3 unit quads on a 3 m lattice (never overlapping, so never merged),
+		// the k-th sample of a session at a position determined by k; negative
+		// coordinates make the grid grow in every direction
+		n := 0
+		if s != nil {
+			n = len(s.Planes)
+		}
+		for i := 0; i < 1+g.R.Intn(3) && n < 60; i++ {
+			r.Quads = append(r.Quads, [6]float32{float32(3*(n%8) - 9), 0, float32(3*(n/8) - 9), 1, 0, 1})
+			n++
+		}
+	case "dz_info":
+	case "dz_region":
+		r.Min, r.Max = [3]float32{-100, 0, -100}, [3]float32{100, 0, 100}
 	case "asset_add":
 		r.Entity = g.pickEntity(c, 0.6)
 		if s != nil && g.R.Intn(3) == 0 {
@@ -566,6 +587,12 @@ func (g *Gen) actionTS(s *model.Session, e uint32, name string) *timestamppb.Tim
 		return base
 	}
 	prev, ok := s.Actions[model.ActKey{Entity: e, Name: name}]
+	// the corners of the valid Timestamp range (0001-01-01 .. 9999-12-31) and of
+	// what fits into 64-bit nanoseconds (year 2262 / 1677)
+	if g.R.Intn(12) == 0 {
+		ext := []int64{9_223_372_036, 9_223_372_037, 20_000_000_000 + int64(g.counter), 253_402_300_799, -1, -9_223_372_037, -62_135_596_800}
+		return &timestamppb.Timestamp{Seconds: ext[g.R.Intn(len(ext))], Nanos: int32(g.R.Intn(3)) * 499_999_999}
+	}
 	if !ok {
 		switch g.R.Intn(8) {
 		case 0:
